@@ -541,6 +541,9 @@ def execute(mod, tier, seed, replay=None, repo="/repo"):
         "wall_s": round(time.time() - run.t0, 1),
         "violations": len(violations) + (1 if (run.broken and not violations) else 0),
     }
+    for o in obligations:
+        if not o[1]:
+            run.log("UNDISCHARGED obligation: %s %s" % (o[0][:200], o[2][:200]))
     os.makedirs(os.path.join(VERIF, "evidence"), exist_ok=True)
     json.dump(evid, open(os.path.join(VERIF, "evidence", "%s.json" % mod.ID), "w"), indent=1)
     run.log("done exit=%d wall=%.1fs" % (exit_code, time.time() - run.t0))
